@@ -19,19 +19,25 @@ LABEL_RULES = [
 SCEN = {"quick": ["quick"], "thorough": ["quick", "thorough_a", "thorough_b", "thorough_c", "thorough_d"]}
 BIG = ["big"]   # thorough: model checked only (graph too large to dump)
 KEYS = ("lim", "init", "prods", "wic", "wsc")
+XSCEN = {"quick": ["quick"], "thorough": ["quick", "thorough_a", "thorough_b", "thorough_c", "thorough_d", "big"]}   # X-level trace validation
 
 
 def scen_path(n):
     return os.path.join(vlib.VERIF, "specs", "conc", "scenarios", n + ".json")
 
 
-def mk_factory(scens):
+def tla_scens(scens):
     tl = []
     for s in scens:
         prods = list(s["prods"]) + [[]] * (2 - len(s["prods"]))
         tl.append(dict(lim=s["lim"], init=s["init"], prods=prods,
                        wic=dict(on=bool(s["wic"]["on"]), errch=s["wic"]["errch"], cancel=bool(s["wic"]["cancel"])),
                        wsc=dict(on=bool(s["wsc"]["on"]), script=s["wsc"]["script"], cancel=bool(s["wsc"]["cancel"]))))
+    return tl
+
+
+def mk_factory(scens):
+    tl = tla_scens(scens)
 
     def mk(d, kind):
         graph = kind == "graph"
@@ -73,6 +79,7 @@ FAM = dict(driver="conc", specdirs=["conc", "lib"], monitor="ConcQueuePTrace", p
            n_random={"quick": 5000, "thorough": 250000},
            modes={"quick": [("burst", "burst", 3000, 4)], "thorough": [("burst", "burst", 100000, 4)]},
            x_specs=["conc/ConcQueue.tla"], p_monitor="conc/ConcQueueP.tla",
+           advisory=lambda wd, binp, seed, tier: x_conformance(wd, binp, seed, XSCEN[tier], nrand=100 if tier == "quick" else 1000),
            assumptions=["ConcQueueP encodes the statement as read in its header (I1-I5): enqueue order = real-time order of Enqueue calls; "
                         "pairs of an unlimited queue unconstrained; no deadline for starting a job while others run; "
                         "only WaitIdle's nil result is constrained",
@@ -81,3 +88,58 @@ FAM = dict(driver="conc", specdirs=["conc", "lib"], monitor="ConcQueuePTrace", p
 
 def run(prop, tier, seed):
     return vlib.standard_check(prop, tier, seed, FAM)
+
+
+# --------------------------------------------------------------------------- advisory X-level conformance
+
+def x_conformance(wd, binp, seed, names, nrand=100):
+    """Replays controlled executions of every scenario of the named sets (seeded random schedules, controller
+    steps logged) through the X spec itself (ConcQueueXTrace.tla): one harness run and one TLC run per set,
+    the scenario of a run is chosen by the logged index (Choose(k)). The free-running burst mode has no
+    controller steps and is not part of this. Returns a summary dict; never a verdict."""
+    import subprocess, time
+    total = dict(traces=0, events=0, steps=0, drift=0, wall_s=0.0, samples=[])
+    t0 = time.time()
+    for name in names:
+        if not os.path.exists(scen_path(name)):
+            continue
+        scens = json.load(open(scen_path(name)))["scens"]
+        scheds = [{"name": "%s/%s/x%d" % (name, s["name"], i), "scenario": dict({key: s[key] for key in KEYS}, xk=k + 1), "labels": []}
+                  for k, s in enumerate(scens) for i in range(nrand)]
+        sf = os.path.join(wd, "x-%s-scheds.json" % name)
+        json.dump(scheds, open(sf, "w"))
+        tf = os.path.join(wd, "x-%s.ndjson" % name)
+        stf = os.path.join(wd, "x-%s.stats.json" % name)
+        p = subprocess.run([binp, "-test.run", "^TestRun$", "-driver", "conc", "-out", tf, "-stats", stf, "-sched", sf, "-seed", str(seed), "-logsteps"],
+                           cwd=wd, capture_output=True, text=True)
+        if p.returncode != 0:
+            total["samples"].append("%s: harness failed" % name)
+            continue
+        v = x_validate(wd, name, scens, tf)
+        if isinstance(v, str):
+            total["samples"].append("%s: X-trace validation did not finish: %s" % (name, v))
+            continue
+        total["traces"] += len(scheds)
+        total["events"] += v["total"]
+        total["steps"] += v["steps"]
+        total["drift"] += len(v["drift"])
+        total["samples"] += ["%s: %s" % (name, json.dumps(x)) for x in v["drift"][:3]]
+    total["wall_s"] = round(time.time() - t0, 1)
+    return total
+
+
+def x_validate(wd, name, scens, tf):
+    """One TLC run of ConcQueueXTrace over the trace file tf; returns the verdict dict or an error string."""
+    import shutil
+    d = vlib.spec_scratch(wd, "x-" + name, ["conc", "lib"])
+    vlib.write_mc(d, "MCX", "ConcQueueXTrace", ["ScS == " + vlib.json2tla(tla_scens(scens))],
+                  ["INIT TInit", "NEXT TNext", "CHECK_DEADLOCK FALSE", "CONSTANTS", " Scens <- ScS", " EagerWake = FALSE"])
+    vf = os.path.join(d, "verdict.json")
+    r = vlib.run_tlc(d, "MCX", "MCX.cfg", workers=1, timeout=1500,
+                     env={"TRACE_FILE": tf, "VERDICT_FILE": vf,
+                          "JAVA_TOOL_OPTIONS": "-DTLA-Library=%s -Xmx3g -Xss256m -Dtlc2.tool.impl.Tool.cdot=true" % vlib.TLA_LIB})
+    if not os.path.exists(vf):
+        return r["error"] or "no verdict (%s)" % r["out"][-300:]
+    v = json.load(open(vf))
+    shutil.rmtree(d, ignore_errors=True)
+    return v
